@@ -208,6 +208,7 @@ def run(ctx):
     ok = kernel_setup(ctx, needed=())
     if ok:
         ctx.build_props()
+        ctx.build_props("Props/C04r.vo")  # the Bayes identity over the reals, no algebraic premise (Base/Rstruct.v: MathComp field structure on R)
     else:
         ctx.obligations += 1
     specs = load_corpus("C04") + gen_cases(ctx)
